@@ -297,6 +297,15 @@ def run(chk):
         pick = ["Polyhedron"] + ([others[chk.seed % len(others)]] if others else [])
     else:
         pick = doms
+    if chk.replay:
+        # a replay file names the domain (and entry/variant) of a failing case: re-run that domain's driver
+        try:
+            rd = json.load(open(chk.replay)).get("domain")
+        except (OSError, ValueError):
+            rd = None
+        if rd in doms:
+            pick = [rd]
+        chk.log("replay %s: domain %s" % (chk.replay, pick))
     stats = {"created": 0, "deleted": 0, "cases": 0, "oom_cases": 0, "oom_propagated": 0, "oom_absorbed": 0, "by_outcome": {}, "oom_left_object_not_OK": set()}
     driven, undriven = [], []
     for dom in pick:
